@@ -140,7 +140,21 @@ def make_case(rnd, prop):
         if m.get("groups") and rnd.random() < 0.35:
             leaves_ = [t for t in m["tasks"] if "effort_min" in t]
             if leaves_:
-                rnd.choice(leaves_)["alloc"] = [rnd.choice(m["groups"])["id"]]       # a task that allocates a GROUP
+                tg = rnd.choice(leaves_)
+                gid = rnd.choice(m["groups"])["id"]
+                k = rnd.random()
+                if k < 0.4:
+                    tg["alloc"] = [gid]                                              # a task that allocates a GROUP
+                elif k < 0.7:
+                    tg["alloc"] = [gid]                                              # ... a group with a leaf resource as alternative
+                    tg["alt"] = [rnd.choice(m["resources"])["id"]]
+                else:
+                    tg["alloc"] = [rnd.choice(m["resources"])["id"]]                 # ... a leaf resource with a group as alternative
+                    tg["alt"] = [gid]
+                    for t2 in leaves_:                                               # and competition for the primary, so that the alternative matters
+                        if t2 is not tg and rnd.random() < 0.5:
+                            t2["alloc"] = list(tg["alloc"])
+                            t2.pop("alt", None)
         conts = [t for t in m["tasks"] if t["container"]]
         if conts and rnd.random() < 0.35:
             rnd.choice(conts)["alloc"] = [rnd.choice(m["resources"])["id"]]          # allocation written on a container
